@@ -128,23 +128,34 @@ theorem sum_ite_nodup (σ : Nat → ℝ) (cols : List Nat) (hnd : cols.Nodup) (i
       rw [ih hnd.2 this]; simp [hc]
 
 theorem denseRow_val (σ : Nat → ℝ) (cols : List Nat) (hnd : cols.Nodup) (ents : List (Nat × Rat))
-    (hmem : ∀ e ∈ ents, e.1 ∈ cols) :
+    (hmem : ∀ e ∈ ents, e.2 ≠ 0 → e.1 ∈ cols) :
     (cols.map fun c => ((((ents.filter fun e => e.1 == c).map (·.2)).foldl (· + ·) 0 : Rat) : ℝ) * σ c).sum
       = (ents.map fun e => (e.2 : ℝ) * σ e.1).sum := by
   induction ents with
   | nil => simp
   | cons e es ih =>
     have ih' := ih (fun e he => hmem e (List.mem_cons_of_mem _ he))
-    have he := hmem e (List.mem_cons_self ..)
     simp only [List.map_cons, List.sum_cons]
-    rw [← ih', ← sum_ite_nodup σ cols hnd e.1 (e.2 : ℝ) he, ← List.sum_map_add]
-    congr 1
-    apply List.map_congr_left
-    intro c _
-    simp only [foldl_add_cast, List.filter_cons]
-    by_cases hc : e.1 = c
-    · simp [hc]; ring
-    · simp [hc]
+    by_cases h0 : e.2 = 0
+    · -- a zero-valued entry (placeholder) contributes nothing, whether or not its id is a column
+      rw [← ih', h0]
+      simp only [Rat.cast_zero, zero_mul, zero_add]
+      congr 1
+      apply List.map_congr_left
+      intro c _
+      simp only [foldl_add_cast, List.filter_cons]
+      by_cases hc : e.1 = c
+      · simp [hc, h0]
+      · simp [hc]
+    · have he := hmem e (List.mem_cons_self ..) h0
+      rw [← ih', ← sum_ite_nodup σ cols hnd e.1 (e.2 : ℝ) he, ← List.sum_map_add]
+      congr 1
+      apply List.map_congr_left
+      intro c _
+      simp only [foldl_add_cast, List.filter_cons]
+      by_cases hc : e.1 = c
+      · simp [hc]; ring
+      · simp [hc]
 
 
 theorem mem_insertNat (a x : Nat) (l : List Nat) : x ∈ insertNat a l ↔ x = a ∨ x ∈ l := by
@@ -207,12 +218,19 @@ theorem foldl_insertNat (ids acc : List Nat) (h : acc.Pairwise (· < ·)) :
     tauto
 
 theorem sortedCols_spec (rows : List CRow) : (sortedCols rows).Pairwise (· < ·) ∧
-    ∀ id, id ∈ sortedCols rows ↔ ∃ r ∈ rows, ∃ e ∈ r.entries, e.1 = id := by
-  obtain ⟨h1, h2⟩ := foldl_insertNat (rows.flatMap fun r => r.entries.map (·.1)) [] List.Pairwise.nil
+    ∀ id, id ∈ sortedCols rows ↔ ∃ r ∈ rows, ∃ e ∈ r.entries, e.1 = id ∧ e.2 ≠ 0 := by
+  obtain ⟨h1, h2⟩ := foldl_insertNat
+    (rows.flatMap fun r => (r.entries.filter fun e => e.2 != 0).map (·.1)) [] List.Pairwise.nil
   refine ⟨h1, fun id => ?_⟩
   unfold sortedCols
   rw [h2]
-  simp only [List.mem_flatMap, List.mem_map, List.not_mem_nil, or_false]
+  simp only [List.mem_flatMap, List.mem_map, List.mem_filter, List.not_mem_nil, or_false,
+    bne_iff_ne, ne_eq]
+  constructor
+  · rintro ⟨r, hr, e, ⟨he, hne⟩, rfl⟩
+    exact ⟨r, hr, e, he, rfl, hne⟩
+  · rintro ⟨r, hr, e, he, rfl, hne⟩
+    exact ⟨r, hr, e, ⟨he, hne⟩, rfl⟩
 
 theorem sortedCols_nodup (rows : List CRow) : (sortedCols rows).Nodup :=
   (sortedCols_spec rows).1.imp (fun h => Nat.ne_of_lt h)
@@ -229,9 +247,9 @@ theorem assemble_val (rows : List CRow) (K : List Cone) (σ : Nat → ℝ) (i : 
   unfold denseRow
   rw [zipWith_map_self]
   apply denseRow_val σ _ (sortedCols_nodup rows)
-  intro e he
+  intro e he hne
   rw [(sortedCols_spec rows).2]
-  exact ⟨rows[i], List.getElem_mem hi, e, he, rfl⟩
+  exact ⟨rows[i], List.getElem_mem hi, e, he, rfl, hne⟩
 
 /-! ### colOf -/
 
